@@ -1,3 +1,4 @@
+from copy import copy
 import enum
 import logging
 import os
@@ -23,6 +24,8 @@ from yatiml.util import (
         type_to_desc)
 
 logger = logging.getLogger(__name__)
+
+_MAX_ALIAS_COPIES = 1000000
 
 
 class Loader(yaml.SafeLoader):
@@ -68,6 +71,7 @@ class Loader(yaml.SafeLoader):
             # acceptable if the document type allows that.
             mark = yaml.error.Mark('empty document', 0, 0, 0, None, 0)
             node = yaml.ScalarNode('tag:yaml.org,2002:null', '', mark, mark)
+        node = self.__expand_aliases(node, set(), set(), [0])
         node = self.__process_node(node, type(self).document_type)
         return node
 
@@ -83,7 +87,64 @@ class Loader(yaml.SafeLoader):
         """
         node = cast(yaml.Node, super().get_node())
         if node is not None:
+            node = self.__expand_aliases(node, set(), set(), [0])
             node = self.__process_node(node, type(self).document_type)
+        return node
+
+    def __expand_aliases(
+            self, node: yaml.Node, seen: Set[int], ancestors: Set[int],
+            count: List[int]) -> yaml.Node:
+        """Gives every alias its own copy of the anchored node.
+
+        PyYAML represents an anchored node and its aliases by a single
+        node object. We recognise, savorize and tag nodes in place,
+        according to the type expected at each position, so a shared
+        node would be processed once per reference, each time on top
+        of the changes made for the previous one. This returns an
+        equivalent tree in which no node object occurs twice.
+
+        Args:
+            node: The node to expand.
+            seen: Ids of the nodes that are part of the result so far.
+            ancestors: Ids of the collection nodes we are inside of.
+            count: Number of copies made so far.
+
+        Returns:
+            The node, or a copy of it if it was used before.
+
+        Raises:
+            RecognitionError: If a node contains itself, or if too
+                many copies are needed (a "billion laughs" document).
+        """
+        original_id = id(node)
+        if original_id in ancestors:
+            raise RecognitionError(
+                    '{}\nThis node contains itself via an alias, which is not'
+                    ' supported.'.format(node.start_mark))
+        if original_id in seen:
+            count[0] += 1
+            if count[0] > _MAX_ALIAS_COPIES:
+                raise RecognitionError(
+                        '{}\nExpanding the aliases in this document takes'
+                        ' more than {} copies of nodes, which is not'
+                        ' supported.'.format(
+                            node.start_mark, _MAX_ALIAS_COPIES))
+            node = copy(node)
+        seen.add(id(node))
+
+        if isinstance(node, yaml.SequenceNode):
+            ancestors.add(original_id)
+            node.value = [
+                    self.__expand_aliases(item, seen, ancestors, count)
+                    for item in node.value]
+            ancestors.discard(original_id)
+        elif isinstance(node, yaml.MappingNode):
+            ancestors.add(original_id)
+            node.value = [(
+                    self.__expand_aliases(key_node, seen, ancestors, count),
+                    self.__expand_aliases(value_node, seen, ancestors, count))
+                    for key_node, value_node in node.value]
+            ancestors.discard(original_id)
         return node
 
     def __type_to_tag(self, type_: Type) -> str:
